@@ -358,8 +358,9 @@ PROPS["C09"] = {
 }
 
 PROPS["C04"] = {
-    "files": EST_FILES, "native_files": ["root/c09_establish_native.go"], "native_cuts": EST_CUTS,
-    "claim": "Safety part only. One request through SendRPC for a cached or unknown region, every script of up to FAULTS cluster "
+    "files": EST_FILES + ["region/fakes.go", "region/c04_classify.go"], "native_files": ["root/c09_establish_native.go"], "native_cuts": EST_CUTS,
+    "claim": "Safety part only. exceptionToError over EVERY class-name string up to L bytes maps the 12 listed classes (and "
+             "java.io.IOException with its log-closed stack) to their retry class and every other name to a plain error. One request through SendRPC for a cached or unknown region, every script of up to FAULTS cluster "
              "misbehaviours (request answered not-serving / server-error / retry-later, dial failure, probe failures, hbase:meta "
              "listing a replacement region or no table) followed by a stable cluster: the request returns success, or TableNotFound "
              "when the table was removed, never a retryable error; afterwards no live cached region is unavailable. Every recovery step "
@@ -373,6 +374,8 @@ PROPS["C04"] = {
          "preempts": {"quick": 1, "thorough": 2}, "params": {"quick": {"FAULTS": 2}, "thorough": {"FAULTS": 3}}},
         {"name": "two_callers_busy", "steps": 40000, "timeout_s": {"quick": 300, "thorough": 1500}, "pkg": "root", "entry": "VerifTwoCallers", "stubs": EST_STUBS, "reach": ["both-returned"],
          "preempts": {"quick": 1, "thorough": 2}, "params": {"quick": {"FAULTS": 1, "BUSY": 1}, "thorough": {"FAULTS": 1, "BUSY": 1}}},
+        {"name": "classify_exception", "pkg": "region", "entry": "VerifClassify", "reach": ["retry-later", "region", "server", "other"],
+         "params": {"quick": {"L": 70}, "thorough": {"L": 90}}},
         {"name": "region_moved", "steps": 40000, "pkg": "root", "entry": "VerifRegionMoved", "stubs": EST_STUBS, "reach": ["moved"],
          "params": {"quick": {"FAULTS": 0, "STALE": 2}, "thorough": {"FAULTS": 0, "STALE": 4}}},
     ],
